@@ -59,6 +59,12 @@ def lautum_information(dist, rvs=None, crvs=None, rv_mode=None):
     """
     rvs, crvs, rv_mode = normalize_rvs(dist, rvs, crvs, rv_mode)
 
-    pd = product_distribution(dist, rvs=rvs + [crvs], rv_mode=rv_mode)
-    L = kullback_leibler_divergence(pd, dist, rvs=rvs, crvs=crvs, rv_mode=rv_mode)
+    # The product distribution numbers its variables from zero, one per group.
+    # Bring `dist` into the same form so that both are addressed alike.
+    groups = rvs + ([crvs] if crvs else [])
+    d = dist.coalesce(groups, rv_mode=rv_mode)
+    new_rvs = [[i] for i in range(len(rvs))]
+    new_crvs = [len(rvs)] if crvs else []
+    pd = product_distribution(d, rvs=new_rvs + ([new_crvs] if crvs else []), rv_mode='indices')
+    L = kullback_leibler_divergence(pd, d, rvs=new_rvs, crvs=new_crvs, rv_mode='indices')
     return L
